@@ -109,6 +109,19 @@ def allPresent : Fields → List Val → Bool
   | .cons .., [] => false
 
 mutual
+/-- what an ANY can capture: the element's tag is not `[UNIVERSAL 0]` (the end-of-octets tag is in
+    ANY's skip list), and — because an indefinite-length capture is collected fragment by fragment
+    with the same rule — neither is the tag of any element reached through indefinite-length
+    levels.  Definite-length contents are taken as they are. -/
+def TLV.anyOk : TLV → Bool
+  | .prim _ tg _ => !(tg.cls == .universal && tg.num == 0)
+  | .cons _ tg indef cs => !(tg.cls == .universal && tg.num == 0) && (!indef || anyOkL cs)
+def anyOkL : List TLV → Bool
+  | [] => true
+  | c :: cs => c.anyOk && anyOkL cs
+end
+
+mutual
 /-- decode `tlv` as a value of `t`, checking its outermost tag -/
 def decTy (cfg : DecCfg) : Ty → TLV → Res Val
   | .tagged true cls num t, tlv =>
@@ -121,7 +134,7 @@ def decTy (cfg : DecCfg) : Ty → TLV → Res Val
   | .choice fs, tlv => decAlt cfg fs 0 tlv
   | .any, tlv =>
     -- the end-of-octets tag is in ANY's skip list (`Any.tagMap` skipTypes)
-    if tlv.tag.cls = .universal ∧ tlv.tag.num = 0 then .error .malformed else .ok (.any tlv.ser)
+    if tlv.anyOk then .ok (.any tlv.ser) else .error .malformed
   | .prim p, tlv =>
     if tlv.tag.cls = .universal ∧ tlv.tag.num = p.univNum then decPrim cfg p tlv
     else .error .malformed
@@ -154,7 +167,8 @@ def decBody (cfg : DecCfg) : Ty → TLV → Res Val
   | .setOf t, .cons _ _ _ cs => (decElems cfg t cs).map .seqOf
   | .choice fs, .cons _ _ _ [child] => decAlt cfg fs 0 child    -- tagged CHOICE acts as explicit
   | .any, .prim _ _ c => .ok (.any c)
-  | .any, .cons _ _ _ cs => .ok (.any (serList cs))
+  | .any, .cons _ _ indef cs =>
+    if !indef || anyOkL cs then .ok (.any (serList cs)) else .error .malformed
   | _, _ => .error .malformed
 /-- CHOICE: the first alternative whose tag map holds the element's tag -/
 def decAlt (cfg : DecCfg) : Fields → Nat → TLV → Res Val
